@@ -1,11 +1,16 @@
 (* More proofs about the unfolder model (Gotype/Unfold.v), continuing Gotype/UnfoldProofs.v:
      Part A  the three loops of uf as instances of one generic loop; locality of a loop
-     Part B  locality of uf: on the events of a complete value followed by anything, the
-             outcome is the outcome on the value alone with the rest appended
-     Part C  the fuel of unfold_value is enough on complete values (stability)
-     Part D  C13  struct targets on arbitrary object streams: struct_spec and its corollaries
-     Part E  C14  error path: complete streams are decided, proper prefixes are never done
-     Part F  C11  direct route Fold -> Unfold beyond flat structs *)
+     Part B  locality of uf (loc_plain): on the events of a complete value followed by anything,
+             the outcome is the outcome on the value alone with the rest appended
+     Part C  the fuel of unfold_value is enough on complete values (stable_plain, uf_fuel_enough)
+     Part D  C13  struct targets on arbitrary object streams: struct_spec (C13_struct_spec,
+             C13_struct_unfold_value) and its corollaries (C13_unmentioned_untouched,
+             C13_unknown_member_irrelevant, C13_matching_*_assigned,
+             C13_member_order_irrelevant_partial), each also for whole documents (_doc)
+     Part E  C14  error path: complete streams are decided (C14_complete_stream_decided), proper
+             prefixes are never done (C14_prefix_not_done)
+     Part F  C11  direct route Fold -> Unfold beyond flat structs (C11_direct_nested_partial):
+             structs nested in structs, behind pointers, in slices and maps; inlined structs *)
 From Coq Require Import List NArith ZArith Bool Lia.
 From Coq Require Import ZifyBool ZifyNat ZifyN.
 From SF Require Import Base.Prelude Base.PreludeProofs Core.Events Core.EventsProofs Core.AdapterProofs.
@@ -1724,32 +1729,39 @@ Proof. vm_compute. split; reflexivity. Qed.
 
 (* ====================================================================== *)
 (* Part F: C11 (direct route) beyond flat structs: structs nested in        *)
-(* structs, behind pointers, in slices and in maps                          *)
+(* structs, behind pointers, in slices and in maps; inlined structs         *)
 (* ====================================================================== *)
 
 (* ---------- the fragment ---------- *)
-(* an emittable field is not inlined *)
-Definition nsq (name tag : bytes) : bool :=
-  negb (emittable name tag) || negb (t_squash (snd (parse_tags tag))).
+(* an inlined (squash) field: exported, not "-"/omit, tagged inline or squash *)
+Definition inl_field (name tag : bytes) : bool := emittable name tag && t_squash (snd (parse_tags tag)).
+(* what is inlined is a struct (not a pointer, map or interface: Unfold refuses these), and
+   not omitempty (Fold refuses that) *)
+Definition fld_ok (name tag : bytes) (ft : gtype) : bool :=
+  negb (inl_field name tag) ||
+  (match ft with TStruct _ => true | _ => false end && negb (t_omitempty (snd (parse_tags tag)))).
+(* the member names are distinct, those of inlined structs included: the field table exists *)
+Definition ftab_okb (fs : list (bytes * bytes * gtype)) : bool :=
+  match field_table (S (ftsize (TStruct fs))) fs O with inr _ => true | inl _ => false end.
 
-(* the types of Part 6 (simple), structs of such types without inlined fields and with
-   distinct member names, and pointers to / slices of / string-keyed maps of these *)
+(* the types of Part 6 (simple), structs of such types with distinct member names, and
+   pointers to / slices of / string-keyed maps of these *)
 Fixpoint nest (t : gtype) : bool :=
   match t with
   | TBool | TString | TNum _ => true
   | TPtr u | TSlice u | TMap u => nest u
   | TStruct fs =>
       (fix go (l : list (bytes * bytes * gtype)) : bool :=
-         match l with [] => true | (name, tag, ft) :: r => nest ft && nsq name tag && go r end) fs
-      && nodupb (skeys fs)
+         match l with [] => true | (name, tag, ft) :: r => nest ft && fld_ok name tag ft && go r end) fs
+      && ftab_okb fs
   | TNamed u => simple (TNamed u)
   | _ => false
   end.
 
 Fixpoint nest_fields (l : list (bytes * bytes * gtype)) : bool :=
-  match l with [] => true | (name, tag, ft) :: r => nest ft && nsq name tag && nest_fields r end.
+  match l with [] => true | (name, tag, ft) :: r => nest ft && fld_ok name tag ft && nest_fields r end.
 
-Lemma nest_struct fs : nest (TStruct fs) = nest_fields fs && nodupb (skeys fs).
+Lemma nest_struct fs : nest (TStruct fs) = nest_fields fs && ftab_okb fs.
 Proof. reflexivity. Qed.
 
 (* well-typed values *)
@@ -1786,7 +1798,8 @@ Fixpoint wt2_fields (l : list (bytes * bytes * gtype)) (vs : list gvalue) : bool
 Lemma wt2_struct fs vs : wt2 (TStruct fs) (GStruct vs) = wt2_fields fs vs.
 Proof. reflexivity. Qed.
 
-(* the (expanded) events Fold sends for a value, as the folder of a field / element *)
+(* the (expanded) events Fold sends for a value, as the folder of a field / element; an
+   inlined struct contributes its members: its events without the object start and end *)
 Fixpoint xev2 (t : gtype) (v : gvalue) {struct t} : list event :=
   match t with
   | TPtr u => match v with GPtr x => xev2 u x | _ => [EVal SNil] end
@@ -1803,7 +1816,8 @@ Fixpoint xev2 (t : gtype) (v : gvalue) {struct t} : list event :=
           (fix go (l : list (bytes * bytes * gtype)) (vs : list gvalue) : list event :=
              match l, vs with
              | (name, tag, ft) :: r, fv :: vr =>
-                 (if emitted name tag ft fv then EKey (fkey name tag) :: xev2 ft fv else []) ++ go r vr
+                 (if inl_field name tag then removelast (tl (xev2 ft fv))
+                  else if emitted name tag ft fv then EKey (fkey name tag) :: xev2 ft fv else []) ++ go r vr
              | _, _ => []
              end) fs vs ++ [EObjEnd]
       | _ => []
@@ -1814,13 +1828,17 @@ Fixpoint xev2 (t : gtype) (v : gvalue) {struct t} : list event :=
 Fixpoint fields_ev2 (l : list (bytes * bytes * gtype)) (vs : list gvalue) : list event :=
   match l, vs with
   | (name, tag, ft) :: r, fv :: vr =>
-      (if emitted name tag ft fv then EKey (fkey name tag) :: xev2 ft fv else []) ++ fields_ev2 r vr
+      (if inl_field name tag then removelast (tl (xev2 ft fv))
+       else if emitted name tag ft fv then EKey (fkey name tag) :: xev2 ft fv else []) ++ fields_ev2 r vr
   | _, _ => []
   end.
 
 Lemma xev2_struct fs vs :
   xev2 (TStruct fs) (GStruct vs) = EObjStart (count_fields fs) BAny :: fields_ev2 fs vs ++ [EObjEnd].
 Proof. reflexivity. Qed.
+
+Lemma xev2_members fs vs : removelast (tl (xev2 (TStruct fs) (GStruct vs))) = fields_ev2 fs vs.
+Proof. rewrite xev2_struct. cbn [tl]. apply removelast_last. Qed.
 
 (* what unfolding these events into a zero target yields *)
 Fixpoint nv2 (t : gtype) (v : gvalue) {struct t} : gvalue :=
@@ -1992,97 +2010,238 @@ Proof.
     clear. induction kvs as [|kv kvs IH]; [cbn; lia|]. cbn [flat_map]. rewrite app_length. cbn [length]. lia.
 Qed.
 
-(* the field table of a struct without inlined fields *)
-Lemma field_table_nsq : forall fs fuel idx,
-  forallb (fun fd => nsq (fst (fst fd)) (snd (fst fd))) fs = true -> nodupb (skeys fs) = true ->
-  (length fs < fuel)%nat -> field_table fuel fs idx = inr (table fs idx).
+(* ---------- the field table of a struct with inlined structs ---------- *)
+(* [tabfor tab pp idx fs]: in [tab] the members of the fields [fs] (the fields from index
+   [idx] on of the struct found at path [pp]) lead to these fields *)
+Inductive tabfor (tab : ftable) : list nat -> nat -> list (bytes * bytes * gtype) -> Prop :=
+| tf_nil pp idx : tabfor tab pp idx []
+| tf_skip pp idx name tag ft r :
+    emittable name tag = false -> tabfor tab pp (S idx) r -> tabfor tab pp idx ((name, tag, ft) :: r)
+| tf_plain pp idx name tag ft r :
+    emittable name tag = true -> t_squash (snd (parse_tags tag)) = false ->
+    assoc_key (fkey name tag) tab = Some (pp ++ [idx], ft) ->
+    tabfor tab pp (S idx) r -> tabfor tab pp idx ((name, tag, ft) :: r)
+| tf_inl pp idx name tag ifs r :
+    emittable name tag = true -> t_squash (snd (parse_tags tag)) = true ->
+    tabfor tab (pp ++ [idx]) O ifs ->
+    tabfor tab pp (S idx) r -> tabfor tab pp idx ((name, tag, TStruct ifs) :: r).
+
+Lemma assoc_app_l {A} k (a b : list (bytes * A)) x : assoc_key k a = Some x -> assoc_key k (a ++ b) = Some x.
 Proof.
-  induction fs as [|[[name tag] ft] fs IH]; intros fuel idx Hf Hn Hl.
-  - destruct fuel; [cbn in Hl; lia|reflexivity].
-  - destruct fuel as [|fuel]; [cbn in Hl; lia|]. cbn [length] in Hl.
-    cbn [forallb fst snd] in Hf. apply andb_true_iff in Hf. destruct Hf as [Hsq Hf]. unfold nsq in Hsq.
-    cbn [field_table table skeys] in *. unfold emittable, fkey in *.
-    destruct (exported name); cbn [negb andb] in *.
-    + destruct (parse_tags tag) as [tn o]. cbn [fst snd] in *.
-      destruct (t_omit o); cbn [negb orb] in *.
-      * rewrite IH by (auto; lia). reflexivity.
-      * destruct (t_squash o); [discriminate Hsq|].
-        cbn [nodupb] in Hn. apply andb_true_iff in Hn. destruct Hn as [Hn1 Hn].
-        rewrite IH by (auto; lia).
-        cbn [existsb fst]. rewrite orb_false_r.
-        rewrite <- (table_keys fs (S idx)) in Hn1. rewrite existsb_map in Hn1.
-        apply negb_true_iff in Hn1. rewrite Hn1. reflexivity.
-    + rewrite IH by (auto; lia). reflexivity.
+  unfold assoc_key. induction a as [|e a IH]; [discriminate|]. cbn [app find].
+  destruct (bytes_eqb (fst e) k); [exact (fun H => H)|exact IH].
 Qed.
 
-Lemma nest_fields_nsq fs : nest_fields fs = true ->
-  forallb (fun fd => nsq (fst (fst fd)) (snd (fst fd))) fs = true.
+Lemma assoc_app_r {A} k (a b : list (bytes * A)) x :
+  existsb (fun x => existsb (fun y => bytes_eqb (fst x) (fst y)) b) a = false ->
+  assoc_key k b = Some x -> assoc_key k (a ++ b) = Some x.
 Proof.
-  induction fs as [|[[n tg] ft] fs IH]; intro H; [reflexivity|].
-  cbn [nest_fields] in H. apply andb_true_iff in H. destruct H as [H H3]. apply andb_true_iff in H. destruct H as [H1 H2].
-  cbn [forallb fst snd]. rewrite H2, (IH H3). reflexivity.
+  intros Hd Hb. induction a as [|e a IH]; [exact Hb|].
+  cbn [existsb] in Hd. apply orb_false_iff in Hd. destruct Hd as [He Hd].
+  unfold assoc_key. cbn [app find]. destruct (bytes_eqb (fst e) k) eqn:Ek.
+  - exfalso. unfold assoc_key in Hb. destruct (find (fun e0 => bytes_eqb (fst e0) k) b) as [y|] eqn:Ef; [|discriminate Hb].
+    apply find_some in Ef. destruct Ef as [Hin Hy].
+    apply bytes_eqb_spec in Ek, Hy. pose proof (existsb_false_in _ _ y He Hin) as Hne. cbn beta in Hne.
+    rewrite Ek, Hy, bytes_eqb_refl in Hne. discriminate Hne.
+  - apply IH. exact Hd.
 Qed.
 
+Lemma assoc_map_prefix k idx (sub : ftable) p ft : assoc_key k sub = Some (p, ft) ->
+  assoc_key k (map (fun e => (fst e, (idx :: fst (snd e), snd (snd e)))) sub) = Some (idx :: p, ft).
+Proof.
+  unfold assoc_key. induction sub as [|[k' [p' ft']] sub IH]; [discriminate|]. cbn [map find fst snd].
+  destruct (bytes_eqb k' k); [intro H; injection H as <- <-; reflexivity|exact IH].
+Qed.
+
+Lemma assoc_head {A} k (x : A) l : assoc_key k ((k, x) :: l) = Some x.
+Proof. unfold assoc_key. cbn [find fst]. rewrite bytes_eqb_refl. reflexivity. Qed.
+
+Lemma field_table_tabfor : forall fuel fs idx t0, field_table fuel fs idx = inr t0 ->
+  forall tab pp, (forall k p ft, assoc_key k t0 = Some (p, ft) -> assoc_key k tab = Some (pp ++ p, ft)) ->
+  tabfor tab pp idx fs.
+Proof.
+  induction fuel as [|f IH]; intros fs idx t0 H tab pp Hemb; [discriminate H|].
+  cbn [field_table] in H. destruct fs as [|[[name tag] ft0] fs]; [constructor|].
+  destruct (field_table f fs (S idx)) as [err|b] eqn:Er.
+  - destruct (negb (exported name)); [discriminate H|].
+    destruct (parse_tags tag) as [tn o]. destruct (t_omit o); [discriminate H|].
+    destruct (t_squash o); [destruct ft0; try discriminate H; destruct (field_table f fs0 0); discriminate H|discriminate H].
+  - unfold emittable in *.
+    destruct (exported name) eqn:Ex; cbn [negb] in H;
+      [|injection H as <-; apply tf_skip; [unfold emittable; rewrite Ex; reflexivity|apply (IH _ _ _ Er); exact Hemb]].
+    destruct (parse_tags tag) as [tn o] eqn:Ep.
+    destruct (t_omit o) eqn:Eo;
+      [injection H as <-; apply tf_skip; [unfold emittable; rewrite Ex, Ep; cbn [snd]; rewrite Eo; reflexivity|apply (IH _ _ _ Er); exact Hemb]|].
+    assert (Hem : emittable name tag = true) by (unfold emittable; rewrite Ex, Ep; cbn [snd]; rewrite Eo; reflexivity).
+    destruct (t_squash o) eqn:Es.
+    + destruct ft0; try discriminate H.
+      destruct (field_table f fs0 0) as [err|sub] eqn:Esub; [discriminate H|].
+      match type of H with (if ?c then _ else _) = _ => destruct c eqn:Ed end; [discriminate H|].
+      injection H as <-. apply tf_inl; [exact Hem|rewrite Ep; exact Es| |].
+      * apply (IH _ _ _ Esub). intros k p ft Hk. rewrite <- app_assoc. cbn [app]. apply Hemb.
+        apply assoc_app_l. apply assoc_map_prefix. exact Hk.
+      * apply (IH _ _ _ Er). intros k p ft Hk. apply Hemb. apply assoc_app_r; [exact Ed|exact Hk].
+    + match type of H with (if ?c then _ else _) = _ => destruct c eqn:Ed end; [discriminate H|].
+      injection H as <-. apply tf_plain; [exact Hem|rewrite Ep; exact Es| |].
+      * apply Hemb. unfold fkey. rewrite Ep. cbn [fst app]. apply assoc_head.
+      * apply (IH _ _ _ Er). intros k p ft Hk. apply Hemb.
+        exact (assoc_app_r k [(field_name name tn, ([idx], ft0))] b _ Ed Hk).
+Qed.
+
+(* ---------- paths into nested structs ---------- *)
+Lemma get_path_app : forall pp q cur, get_path (pp ++ q) cur = get_path q (get_path pp cur).
+Proof.
+  induction pp as [|i pp IH]; intros q cur; [reflexivity|]. cbn [app get_path].
+  destruct cur; try (rewrite get_path_nil; reflexivity). apply IH.
+Qed.
+
+Lemma replace_nth_nth {A} (d : A) : forall l i, replace_nth i (nth i l d) l = l.
+Proof.
+  induction l as [|x l IH]; intros [|i]; try reflexivity. cbn [nth replace_nth]. rewrite IH. reflexivity.
+Qed.
+
+Lemma replace_nth_twice {A} (x y : A) : forall l i, replace_nth i y (replace_nth i x l) = replace_nth i y l.
+Proof.
+  induction l as [|z l IH]; intros [|i]; try reflexivity. cbn [replace_nth]. rewrite IH. reflexivity.
+Qed.
+
+Lemma set_get_path : forall pp cur, set_path pp (get_path pp cur) cur = cur.
+Proof.
+  induction pp as [|i pp IH]; intro cur; [reflexivity|]. cbn [set_path get_path].
+  destruct cur; try reflexivity. rewrite IH, replace_nth_nth. reflexivity.
+Qed.
+
+Lemma get_struct_valid i pp vs ws : get_path (i :: pp) (GStruct ws) = GStruct vs -> (i < length ws)%nat.
+Proof.
+  cbn [get_path]. intro H. destruct (Nat.ltb i (length ws)) eqn:E; [apply Nat.ltb_lt; exact E|].
+  apply Nat.ltb_ge in E. rewrite nth_overflow in H by exact E. rewrite get_path_nil in H. discriminate H.
+Qed.
+
+Lemma get_struct_is_struct i pp cur vs : get_path (i :: pp) cur = GStruct vs -> exists ws, cur = GStruct ws.
+Proof. destruct cur; cbn [get_path]; try discriminate. eauto. Qed.
+
+Lemma set_path_snoc : forall pp cur vs i x, get_path pp cur = GStruct vs ->
+  set_path (pp ++ [i]) x cur = set_path pp (GStruct (replace_nth i x vs)) cur.
+Proof.
+  induction pp as [|j pp IH]; intros cur vs i x H.
+  - cbn [get_path] in H. subst cur. reflexivity.
+  - destruct (get_struct_is_struct _ _ _ _ H) as [ws ->]. cbn [app set_path]. cbn [get_path] in H.
+    rewrite (IH _ _ i x H). reflexivity.
+Qed.
+
+Lemma get_set_path : forall pp cur vs x, get_path pp cur = GStruct vs -> get_path pp (set_path pp x cur) = x.
+Proof.
+  induction pp as [|j pp IH]; intros cur vs x H; [reflexivity|].
+  destruct (get_struct_is_struct _ _ _ _ H) as [ws ->]. pose proof (get_struct_valid _ _ _ _ H) as Hj.
+  cbn [set_path get_path]. rewrite nth_replace_nth_same by exact Hj. cbn [get_path] in H. apply (IH _ _ x H).
+Qed.
+
+Lemma set_set_path : forall pp cur vs x y, get_path pp cur = GStruct vs ->
+  set_path pp y (set_path pp x cur) = set_path pp y cur.
+Proof.
+  induction pp as [|j pp IH]; intros cur vs x y H; [reflexivity|].
+  destruct (get_struct_is_struct _ _ _ _ H) as [ws ->]. pose proof (get_struct_valid _ _ _ _ H) as Hj.
+  cbn [set_path]. rewrite nth_replace_nth_same by exact Hj. cbn [get_path] in H.
+  rewrite (IH _ _ x y H), replace_nth_twice. reflexivity.
+Qed.
+
+(* ---------- the struct loop over the fields, into a zero struct ---------- *)
 (* one field: its events into a zero field leave [nv2] *)
 Definition field_unf (f : nat) (ft : gtype) (fv : gvalue) : Prop :=
   forall rest, uf f ft (zero_of ft) (xev2 ft fv ++ rest) = UOk (nv2 ft fv) rest.
 
-Inductive fields_unf (f : nat) : list (bytes * bytes * gtype) -> list gvalue -> Prop :=
-| fu_nil : fields_unf f [] []
-| fu_cons name tag ft fr fv vr :
-    field_unf f ft fv -> fields_unf f fr vr -> fields_unf f ((name, tag, ft) :: fr) (fv :: vr).
+Inductive funf (f : nat) (tab : ftable) : list nat -> nat -> list (bytes * bytes * gtype) -> list gvalue -> Prop :=
+| fu_nil pp idx : funf f tab pp idx [] []
+| fu_skip pp idx name tag ft r fv vr :
+    emittable name tag = false -> funf f tab pp (S idx) r vr ->
+    funf f tab pp idx ((name, tag, ft) :: r) (fv :: vr)
+| fu_plain pp idx name tag ft r fv vr :
+    emittable name tag = true -> t_squash (snd (parse_tags tag)) = false ->
+    assoc_key (fkey name tag) tab = Some (pp ++ [idx], ft) -> field_unf f ft fv ->
+    funf f tab pp (S idx) r vr -> funf f tab pp idx ((name, tag, ft) :: r) (fv :: vr)
+| fu_inl pp idx name tag ifs r ivs vr :
+    emittable name tag = true -> t_squash (snd (parse_tags tag)) = true ->
+    t_omitempty (snd (parse_tags tag)) = false ->
+    funf f tab (pp ++ [idx]) O ifs ivs ->
+    funf f tab pp (S idx) r vr -> funf f tab pp idx ((name, tag, TStruct ifs) :: r) (GStruct ivs :: vr).
 
-Lemma struct_loop_fields2 f tab : forall fs vs done g rest,
-  fields_unf f fs vs ->
-  (forall pre name tag ft post, fs = pre ++ (name, tag, ft) :: post -> emittable name tag = true ->
-     assoc_key (fkey name tag) tab = Some ([length done + length pre]%nat, ft)) ->
-  (length (fields_ev2 fs vs) < g)%nat ->
-  struct_loop f tab g (GStruct (done ++ zeros fs)) (fields_ev2 fs vs ++ EObjEnd :: rest)
-  = UOk (GStruct (done ++ fields_nv2 fs vs)) rest.
+Lemma zeros_cons n tg ft fs : zeros ((n, tg, ft) :: fs) = zero_of ft :: zeros fs.
+Proof. reflexivity. Qed.
+
+Lemma app_cons_assoc {A} (a : list A) x b : a ++ x :: b = (a ++ [x]) ++ b.
+Proof. rewrite <- app_assoc. reflexivity. Qed.
+
+Lemma struct_loop_funf f tab : forall pp idx fs vs, funf f tab pp idx fs vs ->
+  exists c, (c <= length (fields_ev2 fs vs))%nat /\
+  forall done cur g R, length done = idx -> get_path pp cur = GStruct (done ++ zeros fs) -> (c <= g)%nat ->
+    struct_loop f tab g cur (fields_ev2 fs vs ++ R) =
+    struct_loop f tab (g - c) (set_path pp (GStruct (done ++ fields_nv2 fs vs)) cur) R.
 Proof.
-  intros fs vs done g rest H. revert done g rest.
-  induction H as [|name tag ft fs fv vs Hf Hfs IH]; intros done g rest Hk Hg.
-  - destruct g as [|g]; [cbn in Hg; lia|].
-    cbn [fields_ev2 fields_nv2 zeros map app]. rewrite struct_loop_S. reflexivity.
-  - assert (Hk' : forall pre name0 tag0 ft0 post, fs = pre ++ (name0, tag0, ft0) :: post ->
-              emittable name0 tag0 = true ->
-              assoc_key (fkey name0 tag0) tab = Some ([length (done ++ [if emitted name tag ft fv then nv2 ft fv else zero_of ft]) + length pre]%nat, ft0)).
-    { intros pre n0 t0 f0 post E He. rewrite app_length. cbn [length].
-      rewrite (Hk ((name, tag, ft) :: pre) n0 t0 f0 post (f_equal (cons (name, tag, ft)) E) He).
-      cbn [length]. f_equal. f_equal. f_equal. lia. }
-    cbn [fields_ev2 fields_nv2] in *.
-    change (zeros ((name, tag, ft) :: fs)) with (zero_of ft :: zeros fs).
+  induction 1 as [pp idx|pp idx name tag ft r fv vr He _ IH|pp idx name tag ft r fv vr He Hs Hk Hf _ IH
+                 |pp idx name tag ifs r ivs vr He Hs Ho _ IHin _ IH].
+  - exists O. split; [cbn; lia|]. intros done cur g R _ Hg _.
+    cbn [fields_ev2 fields_nv2 app]. unfold zeros in Hg. cbn [map] in Hg.
+    rewrite Nat.sub_0_r, <- Hg, set_get_path. reflexivity.
+  - destruct IH as (c & Hc & IH). exists c.
+    assert (E1 : inl_field name tag = false) by (unfold inl_field; rewrite He; reflexivity).
+    assert (E2 : emitted name tag ft fv = false) by (unfold emitted; rewrite He; reflexivity).
+    cbn [fields_ev2 fields_nv2]. rewrite E1, E2. cbn [app]. split; [exact Hc|].
+    intros done cur g R Hd Hg Hcg. rewrite zeros_cons, app_cons_assoc in Hg.
+    rewrite (IH (done ++ [zero_of ft]) cur g R) by (try rewrite app_length; cbn [length]; try lia; exact Hg || exact Hcg).
+    rewrite <- app_cons_assoc. reflexivity.
+  - destruct IH as (c & Hc & IH).
+    assert (E1 : inl_field name tag = false) by (unfold inl_field; rewrite He, Hs; reflexivity).
+    cbn [fields_ev2 fields_nv2]. rewrite E1.
     destruct (emitted name tag ft fv) eqn:Em.
-    + destruct g as [|g]; [cbn in Hg; lia|].
+    + exists (S c). split; [cbn [app length]; rewrite app_length; lia|].
+      intros done cur g R Hd Hg Hcg. destruct g as [|g]; [lia|].
       cbn [app]. rewrite <- app_assoc.
-      change (EKey (fkey name tag)) with (key_event (fkey name tag) false). rewrite struct_loop_key.
-      assert (He : emittable name tag = true) by (unfold emitted in Em; apply andb_true_iff in Em; tauto).
-      rewrite (Hk [] name tag ft fs eq_refl He). cbn [length]. rewrite Nat.add_0_r.
-      cbn [get_path]. rewrite nth_app_here. cbn [get_path].
+      change (EKey (fkey name tag)) with (key_event (fkey name tag) false). rewrite struct_loop_key, Hk.
+      rewrite get_path_app, Hg. cbn [get_path]. rewrite zeros_cons, <- Hd, nth_app_here. cbn [get_path].
       rewrite (Hf _).
-      cbn [set_path]. rewrite replace_nth_app.
-      change (done ++ nv2 ft fv :: zeros fs) with (done ++ [nv2 ft fv] ++ zeros fs). rewrite app_assoc.
-      rewrite (IH (done ++ [nv2 ft fv]) g rest Hk').
-      * rewrite <- app_assoc. reflexivity.
-      * cbn [app length] in Hg. rewrite app_length in Hg. lia.
-    + cbn [app]. change (done ++ zero_of ft :: zeros fs) with (done ++ [zero_of ft] ++ zeros fs). rewrite app_assoc.
-      rewrite (IH (done ++ [zero_of ft]) g rest Hk').
-      * rewrite <- app_assoc. reflexivity.
-      * cbn [app] in Hg. exact Hg.
+      rewrite (set_path_snoc pp cur _ (length done) (nv2 ft fv) Hg), zeros_cons, replace_nth_app.
+      set (cur1 := set_path pp (GStruct (done ++ nv2 ft fv :: zeros r)) cur).
+      assert (Hg1 : get_path pp cur1 = GStruct ((done ++ [nv2 ft fv]) ++ zeros r)).
+      { unfold cur1. rewrite (get_set_path pp cur _ _ Hg), app_cons_assoc. reflexivity. }
+      rewrite (IH (done ++ [nv2 ft fv]) cur1 g R) by (try rewrite app_length; cbn [length]; try lia; exact Hg1).
+      unfold cur1. rewrite (set_set_path pp cur _ _ _ Hg), <- app_cons_assoc. reflexivity.
+    + exists c. cbn [app]. split; [exact Hc|].
+      intros done cur g R Hd Hg Hcg. rewrite zeros_cons, app_cons_assoc in Hg.
+      rewrite (IH (done ++ [zero_of ft]) cur g R) by (try rewrite app_length; cbn [length]; try lia; exact Hg || exact Hcg).
+      rewrite <- app_cons_assoc. reflexivity.
+  - destruct IHin as (c1 & Hc1 & IHin). destruct IH as (c2 & Hc2 & IH).
+    assert (E1 : inl_field name tag = true) by (unfold inl_field; rewrite He, Hs; reflexivity).
+    assert (E2 : emitted name tag (TStruct ifs) (GStruct ivs) = true) by (unfold emitted; rewrite He, Ho; reflexivity).
+    cbn [fields_ev2 fields_nv2]. rewrite E1, E2, xev2_members, nv2_struct.
+    exists (c1 + c2)%nat. split; [rewrite app_length; lia|].
+    intros done cur g R Hd Hg Hcg. rewrite <- app_assoc.
+    assert (Hgi : get_path (pp ++ [idx]) cur = GStruct ([] ++ zeros ifs)).
+    { rewrite get_path_app, Hg. cbn [get_path]. rewrite zeros_cons, <- Hd, nth_app_here. cbn [get_path app].
+      apply zero_struct. }
+    rewrite (IHin [] cur g _ eq_refl Hgi) by lia. cbn [app].
+    rewrite (set_path_snoc pp cur _ idx _ Hg), zeros_cons, <- Hd, replace_nth_app.
+    set (N := GStruct (fields_nv2 ifs ivs)).
+    set (cur1 := set_path pp (GStruct (done ++ N :: zeros r)) cur).
+    assert (Hg1 : get_path pp cur1 = GStruct ((done ++ [N]) ++ zeros r)).
+    { unfold cur1. rewrite (get_set_path pp cur _ _ Hg), app_cons_assoc. reflexivity. }
+    rewrite (IH (done ++ [N]) cur1 (g - c1)%nat R) by (try rewrite app_length; cbn [length]; try lia; exact Hg1).
+    unfold cur1. rewrite (set_set_path pp cur _ _ _ Hg), <- app_cons_assoc.
+    replace (g - c1 - c2)%nat with (g - (c1 + c2))%nat by lia. reflexivity.
 Qed.
 
-Lemma uf_nested_struct fs vs f n bt rest :
-  nest_fields fs = true -> nodupb (skeys fs) = true -> fields_unf f fs vs ->
+Lemma uf_nested_struct fs vs tab f n bt rest :
+  field_table (S (ftsize (TStruct fs))) fs O = inr tab -> funf f tab [] O fs vs ->
   uf (S f) (TStruct fs) (zero_of (TStruct fs)) (EObjStart n bt :: fields_ev2 fs vs ++ EObjEnd :: rest)
   = UOk (GStruct (fields_nv2 fs vs)) rest.
 Proof.
-  intros Hn Hnd Hu. destruct (fsum_bounds fs) as [Hlen _].
-  rewrite (uf_S_struct _ _ fs) by reflexivity.
-  rewrite field_table_nsq by (auto using nest_fields_nsq; rewrite ftsize_struct; lia).
-  rewrite zero_struct.
-  apply (struct_loop_fields2 f (table fs 0) fs vs [] _ rest Hu).
-  - intros pre name tag ft post E He. subst fs. rewrite (assoc_table pre name tag ft post 0 Hnd He). reflexivity.
-  - rewrite app_length. cbn [length]. lia.
+  intros Et Hu. rewrite (uf_S_struct _ _ fs) by reflexivity. rewrite Et, zero_struct.
+  destruct (struct_loop_funf f tab [] O fs vs Hu) as (c & Hc & HL).
+  rewrite (HL [] (GStruct (zeros fs)) _ (EObjEnd :: rest) eq_refl eq_refl)
+    by (rewrite app_length; cbn [length]; lia).
+  cbn [set_path app].
+  destruct (S (length (fields_ev2 fs vs ++ EObjEnd :: rest)) - c)%nat as [|g'] eqn:Eg;
+    [rewrite app_length in Eg; cbn [length] in Eg; lia|].
+  rewrite struct_loop_S. reflexivity.
 Qed.
 
 (* ---------- what is needed of a (type, value) pair ---------- *)
@@ -2358,9 +2517,35 @@ Proof.
   rewrite ftsize_struct in HF. destruct (fsum_bounds fs) as [_ Hb]. specialize (Hb _ Hin). cbn [snd] in Hb. lia.
 Qed.
 
-Lemma nest_prim_kind e : nest e = true -> is_prim e = false -> prim_kind e = false \/ simple e = true.
+Lemma ftab_ok_inv fs : ftab_okb fs = true -> exists tab, field_table (S (ftsize (TStruct fs))) fs O = inr tab.
+Proof. unfold ftab_okb. destruct (field_table (S (ftsize (TStruct fs))) fs 0) as [e|tab]; [discriminate|eauto]. Qed.
+
+(* the types in the field table are types of the fragment *)
+Lemma field_table_nest : forall fuel fs idx tab, field_table fuel fs idx = inr tab -> nest_fields fs = true ->
+  forall k path ft, In (k, (path, ft)) tab -> nest ft = true.
 Proof.
-  intros Hn Hp. destruct e; try discriminate Hn; try discriminate Hp; try (left; reflexivity). right. exact Hn.
+  induction fuel as [|f IH]; intros fs idx tab H Hn k path ft Hin; [discriminate H|].
+  cbn [field_table] in H. destruct fs as [|[[name tag] ft0] fs]; [injection H as <-; contradiction|].
+  cbn [nest_fields] in Hn. apply andb_true_iff in Hn. destruct Hn as [Hn Hn3].
+  apply andb_true_iff in Hn. destruct Hn as [Hnf _].
+  destruct (field_table f fs (S idx)) as [err|b] eqn:Er.
+  - destruct (negb (exported name)); [discriminate H|].
+    destruct (parse_tags tag) as [tn o]. destruct (t_omit o); [discriminate H|].
+    destruct (t_squash o); [destruct ft0; try discriminate H; destruct (field_table f fs0 0); discriminate H|discriminate H].
+  - pose proof (IH _ _ _ Er Hn3) as Hb.
+    destruct (negb (exported name)); [injection H as <-; eauto|].
+    destruct (parse_tags tag) as [tn o]. destruct (t_omit o); [injection H as <-; eauto|].
+    destruct (t_squash o).
+    + destruct ft0; try discriminate H.
+      destruct (field_table f fs0 0) as [err|sub] eqn:Es; [discriminate H|].
+      match type of H with (if ?c then _ else _) = _ => destruct c end; [discriminate H|].
+      injection H as <-. apply in_app_or in Hin. destruct Hin as [Hin|Hin]; [|eauto].
+      apply in_map_iff in Hin. destruct Hin as ([k' [p' ft']] & E & Hin). cbn [fst snd] in E. injection E as _ _ ->.
+      rewrite nest_struct in Hnf. apply andb_true_iff in Hnf. destruct Hnf as [Hnf' _].
+      apply (IH _ _ _ Es Hnf' _ _ _ Hin).
+    + match type of H with (if ?c then _ else _) = _ => destruct c end; [discriminate H|].
+      injection H as <-. cbn [app] in Hin. destruct Hin as [Hin|Hin]; [|eauto].
+      injection Hin as _ _ ->. exact Hnf.
 Qed.
 
 Lemma ucc_nest : forall F t, nest t = true -> (ftsize t <= F)%nat -> ucc F t = None.
@@ -2372,14 +2557,12 @@ Proof.
     apply IH; [exact Hn|cbn [ftsize] in HF; lia].
   - cbn [ucc under]. destruct (prim_kind t || gtype_eqb t TIface); [reflexivity|].
     apply IH; [exact Hn|cbn [ftsize] in HF; lia].
-  - rewrite nest_struct in Hn. apply andb_true_iff in Hn. destruct Hn as [Hnf Hnd].
-    cbn [ucc under]. destruct (fsum_bounds fs) as [Hlen Hin].
-    rewrite field_table_nsq by (auto using nest_fields_nsq; rewrite ftsize_struct; lia).
-    assert (H : forall e, In e (table fs 0) -> ucc f (snd (snd e)) = None).
-    { intros [k [path ft]] He. cbn [snd]. destruct (table_types _ _ _ _ _ He) as (n & tg & Hfd).
-      apply IH; [apply (nest_fields_in fs Hnf n tg ft Hfd)|].
-      specialize (Hin _ Hfd). cbn [snd] in Hin. rewrite ftsize_struct in HF. lia. }
-    induction (table fs 0) as [|e l IHl]; [reflexivity|].
+  - rewrite nest_struct in Hn. apply andb_true_iff in Hn. destruct Hn as [Hnf Hok].
+    destruct (ftab_ok_inv fs Hok) as [tab Et]. cbn [ucc under]. rewrite Et.
+    assert (H : forall e, In e tab -> ucc f (snd (snd e)) = None).
+    { intros [k [path ft]] He. cbn [snd]. apply IH; [apply (field_table_nest _ _ _ _ Et Hnf _ _ _ He)|].
+      pose proof (field_table_ftsize _ _ _ _ Et _ _ _ He). rewrite ftsize_struct in HF. lia. }
+    clear Et. induction tab as [|e l IHl]; [reflexivity|].
     cbn [fold_right]. rewrite (H e) by (left; reflexivity). apply IHl. intros e' He'. apply H. right. exact He'.
   - apply ucc_simple; [exact Hn|exact HF].
 Qed.
@@ -2415,32 +2598,40 @@ Qed.
 Inductive fields_good : list (bytes * bytes * gtype) -> list gvalue -> Prop :=
 | fg_nil : fields_good [] []
 | fg_cons name tag ft fr fv vr :
+    inl_field name tag = false ->
     good ft fv (xev2 ft fv) (nv2 ft fv) -> fields_good fr vr ->
-    fields_good ((name, tag, ft) :: fr) (fv :: vr).
+    fields_good ((name, tag, ft) :: fr) (fv :: vr)
+| fg_inl name tag ifs fr ivs vr :
+    inl_field name tag = true -> t_omitempty (snd (parse_tags tag)) = false ->
+    fields_good ifs ivs ->
+    good (TStruct ifs) (GStruct ivs) (xev2 (TStruct ifs) (GStruct ivs)) (nv2 (TStruct ifs) (GStruct ivs)) ->
+    fields_good fr vr ->
+    fields_good ((name, tag, TStruct ifs) :: fr) (GStruct ivs :: vr).
 
 Lemma tsum_cons n tg ft fs : tsum ((n, tg, ft) :: fs) = S (tsize ft + tsum fs).
 Proof. reflexivity. Qed.
 Lemma vsum_cons x l : vsum (x :: l) = (vsize x + vsum l)%nat.
 Proof. reflexivity. Qed.
 
-Lemma Fields_ev2 f : forall fs vs evs,
-  fields_good fs vs -> nest_fields fs = true -> (tsum fs + vsum vs <= S f)%nat ->
+Lemma Fields_ev2 : forall fs vs, fields_good fs vs -> forall f evs,
+  nest_fields fs = true -> (tsum fs + vsum vs <= S f)%nat ->
   Fields (S f) fs vs = (evs, None) -> flat_map expand evs = fields_ev2 fs vs.
 Proof.
-  intros fs vs evs Hg. revert evs. induction Hg as [|name tag ft fs fv vs Hgd Hgs IH]; intros evs Hn Hb H.
+  induction 1 as [|name tag ft fs fv vs Hinl Hgd Hgs IH|name tag ifs fs ivs vs Hinl Hoe Hgi IHi Hgd Hgs IH];
+    intros f evs Hn Hb H.
   - rewrite Fields_nil_l in H. injection H as <-. reflexivity.
   - cbn [nest_fields] in Hn. apply andb_true_iff in Hn. destruct Hn as [Hn Hn3].
-    apply andb_true_iff in Hn. destruct Hn as [Hnf Hsq]. unfold nsq in Hsq.
+    apply andb_true_iff in Hn. destruct Hn as [Hnf _].
     rewrite tsum_cons, vsum_cons in Hb.
     rewrite Fields_cons in H. apply fseq_ok in H. destruct H as (e1 & e2 & H1 & H2 & ->).
-    rewrite flat_map_app, (IH e2 Hn3 ltac:(lia) H2). cbn [fields_ev2]. f_equal.
+    rewrite flat_map_app, (IH f e2 Hn3 ltac:(lia) H2). cbn [fields_ev2]. rewrite Hinl. f_equal.
     assert (Hfold : forall f' e3, (S f <= f')%nat -> rf f' false ft fv = (e3, None) -> flat_map expand e3 = xev2 ft fv).
     { intros f' e3 Hle Hr. apply (g_fold _ _ _ _ Hgd f' e3); [unfold msz; lia|exact Hr]. }
-    unfold Field1 in H1. unfold emitted, emittable, fkey in *.
+    unfold Field1 in H1. unfold inl_field, emitted, emittable, fkey in *.
     destruct (exported name); cbn [negb andb orb] in *; [|injection H1 as <-; reflexivity].
     destruct (parse_tags tag) as [tn o]. cbn [fst snd] in *.
     destruct (t_omit o); cbn [negb orb andb] in *; [injection H1 as <-; reflexivity|].
-    destruct (t_squash o); [discriminate Hsq|].
+    destruct (t_squash o); [discriminate Hinl|].
     unfold Member in H1. destruct (t_omitempty o); cbn [andb].
     + destruct (resolve_noif f ft fv (nest_base_not_iface ft Hnf)) as [R1 R2]. rewrite R1 in H1. unfold emptyv.
       destruct (resolve 1 ft fv) as [[t' v']|] eqn:Er; cbn [negb]; [|injection H1 as <-; reflexivity].
@@ -2452,13 +2643,20 @@ Proof.
       cbn [flat_map app expand]. rewrite (Hfold f' e3 Hle Hr). reflexivity.
     + apply fseq_fok_l in H1. destruct H1 as (e3 & H1 & ->).
       cbn [flat_map app expand negb]. rewrite (Hfold (S f) e3 (le_n _) H1). reflexivity.
-Qed.
-
-Lemma fields_good_unf f : forall fs vs, fields_good fs vs -> (fsum fs <= f)%nat -> fields_unf f fs vs.
-Proof.
-  induction 1 as [|name tag ft fs fv vs Hgd Hgs IH]; intro Hb; [constructor|].
-  rewrite fsum_cons in Hb. constructor; [|apply IH; lia].
-  intro rest. apply (g_unf _ _ _ _ Hgd). lia.
+  - (* an inlined struct *)
+    cbn [nest_fields] in Hn. apply andb_true_iff in Hn. destruct Hn as [Hn Hn3].
+    apply andb_true_iff in Hn. destruct Hn as [Hnf _].
+    rewrite nest_struct in Hnf. apply andb_true_iff in Hnf. destruct Hnf as [Hnfi _].
+    rewrite tsum_cons, vsum_cons, tsize_struct, vsize_struct in Hb.
+    rewrite Fields_cons in H. apply fseq_ok in H. destruct H as (e1 & e2 & H1 & H2 & ->).
+    rewrite flat_map_app, (IH f e2 Hn3 ltac:(lia) H2). cbn [fields_ev2]. rewrite Hinl, xev2_members. f_equal.
+    unfold Field1 in H1. unfold inl_field, emittable in Hinl.
+    destruct (exported name); cbn [negb andb] in *; [|discriminate Hinl].
+    destruct (parse_tags tag) as [tn o]. cbn [fst snd] in *.
+    destruct (t_omit o); cbn [negb andb] in *; [discriminate Hinl|].
+    rewrite Hinl in H1. unfold Inl in H1. cbn [base_type] in H1. unfold Inl2 in H1. cbn [Fold.deref under] in H1.
+    destruct f as [|f]; [lia|]. rewrite rf_S in H1. cbn [prim_fold] in H1.
+    apply (IHi f e1 Hnfi ltac:(lia) H1).
 Qed.
 
 Lemma deq_fields_nest f : forall fs vs,
@@ -2466,39 +2664,307 @@ Lemma deq_fields_nest f : forall fs vs,
   (forall fd, In fd fs -> (ftsize (snd fd) < f)%nat) ->
   deq_fields f fs (ov_fields f fs vs) (fields_nv2 fs vs) = true.
 Proof.
-  induction 1 as [|name tag ft fs fv vs Hgd Hgs IH]; intros Hn Hsz; [reflexivity|].
-  cbn [nest_fields] in Hn. apply andb_true_iff in Hn. destruct Hn as [Hn Hn3].
-  apply andb_true_iff in Hn. destruct Hn as [Hnf _].
-  pose proof (Hsz _ (or_introl eq_refl)) as Hlt. cbn [snd] in Hlt.
-  rewrite ov_fields_cons. cbn [fields_nv2 deq_fields].
-  rewrite (IH Hn3 (fun fd Hfd => Hsz fd (or_intror Hfd))), andb_true_r.
-  rewrite (g_empty _ _ _ _ Hgd (S f)) by lia.
-  unfold emitted, emittable.
-  destruct (exported name); cbn [negb orb andb]; [|apply tz_all; [exact Hnf|lia]].
-  destruct (t_omit (snd (parse_tags tag))); cbn [negb orb andb]; [apply tz_all; [exact Hnf|lia]|].
-  destruct (t_omitempty (snd (parse_tags tag)) && emptyv ft fv); cbn [negb]; [apply tz_all; [exact Hnf|lia]|].
-  apply (g_deq _ _ _ _ Hgd). exact Hlt.
+  assert (Hstep : forall name tag ft fv,
+    good ft fv (xev2 ft fv) (nv2 ft fv) -> nest ft = true -> (ftsize ft < f)%nat ->
+    deep_eq f ft
+      (if negb (exported name) || t_omit (snd (parse_tags tag)) || (t_omitempty (snd (parse_tags tag)) && spec_empty (S f) ft fv)
+       then zero_of ft else omit_view f ft fv)
+      (if emitted name tag ft fv then nv2 ft fv else zero_of ft) = true).
+  { intros name tag ft fv Hgd Hnf Hlt. rewrite (g_empty _ _ _ _ Hgd (S f)) by lia.
+    unfold emitted, emittable.
+    destruct (exported name); cbn [negb orb andb]; [|apply tz_all; [exact Hnf|lia]].
+    destruct (t_omit (snd (parse_tags tag))); cbn [negb orb andb]; [apply tz_all; [exact Hnf|lia]|].
+    destruct (t_omitempty (snd (parse_tags tag)) && emptyv ft fv); cbn [negb]; [apply tz_all; [exact Hnf|lia]|].
+    apply (g_deq _ _ _ _ Hgd). exact Hlt. }
+  induction 1 as [|name tag ft fs fv vs Hinl Hgd Hgs IH|name tag ifs fs ivs vs Hinl Hoe Hgi _ Hgd Hgs IH];
+    intros Hn Hsz; [reflexivity| |];
+    (cbn [nest_fields] in Hn; apply andb_true_iff in Hn; destruct Hn as [Hn Hn3];
+     apply andb_true_iff in Hn; destruct Hn as [Hnf _];
+     pose proof (Hsz _ (or_introl eq_refl)) as Hlt; cbn [snd] in Hlt;
+     rewrite ov_fields_cons; cbn [fields_nv2 deq_fields];
+     rewrite (IH Hn3 (fun fd Hfd => Hsz fd (or_intror Hfd))), andb_true_r;
+     apply Hstep; assumption).
 Qed.
 
-Lemma good_struct fs vs : nest_fields fs = true -> nodupb (skeys fs) = true -> fields_good fs vs ->
+Lemma good_struct fs vs tab : nest_fields fs = true ->
+  field_table (S (ftsize (TStruct fs))) fs O = inr tab ->
+  fields_good fs vs -> (forall f, (fsum fs <= f)%nat -> funf f tab [] O fs vs) ->
   good (TStruct fs) (GStruct vs)
        (EObjStart (count_fields fs) BAny :: fields_ev2 fs vs ++ [EObjEnd]) (GStruct (fields_nv2 fs vs)).
 Proof.
-  intros Hn Hnd Hg. constructor.
+  intros Hn Et Hg Hu. constructor.
   - intros f evs Hm H. unfold msz in Hm. rewrite tsize_struct, vsize_struct in Hm.
     destruct f as [|[|f]]; try lia.
     rewrite rf_S in H. cbn [prim_fold] in H.
     apply fseq_fok_l in H. destruct H as (e2 & H & ->).
     apply fseq_fok_r in H. destruct H as (e1 & H & ->).
     cbn [app flat_map expand]. rewrite flat_map_app. cbn [flat_map expand app]. f_equal. f_equal.
-    apply (Fields_ev2 f fs vs e1 Hg Hn); [lia|exact H].
+    apply (Fields_ev2 fs vs Hg f e1 Hn); [lia|exact H].
   - intros F rest HF. rewrite ftsize_struct in HF. destruct F as [|f]; [lia|].
     cbn [app]. rewrite <- app_assoc. cbn [app].
-    apply uf_nested_struct; [exact Hn|exact Hnd|]. apply fields_good_unf; [exact Hg|lia].
+    apply (uf_nested_struct fs vs tab); [exact Et|]. apply Hu. lia.
   - eexists; eexists; split; reflexivity.
   - intro H. discriminate H.
   - intros F HF. destruct F as [|f]; [lia|]. rewrite deep_eq_S, omit_view_struct. cbn [under].
     apply deq_fields_nest; [exact Hg|exact Hn|].
     intros fd Hfd. rewrite ftsize_struct in HF. destruct (fsum_bounds fs) as [_ Hin]. specialize (Hin fd Hfd). lia.
   - intros g Hg'. destruct g as [|g]; [cbn [ftsize] in Hg'; lia|]. reflexivity.
+Qed.
+
+(* ---------- every well-typed value of the fragment ---------- *)
+Lemma prim_simple e : is_prim e = true -> simple e = true.
+Proof. destruct e; try discriminate; reflexivity. Qed.
+
+Lemma wt2_fields_nil vs : wt2_fields [] vs = true -> vs = [].
+Proof. destruct vs; [reflexivity|discriminate]. Qed.
+
+Lemma fld_ok_inl name tag ft : inl_field name tag = true -> fld_ok name tag ft = true ->
+  (exists ifs, ft = TStruct ifs) /\ t_omitempty (snd (parse_tags tag)) = false.
+Proof.
+  unfold fld_ok. intros -> H. cbn [negb orb] in H. apply andb_true_iff in H. destruct H as [H1 H2].
+  apply negb_true_iff in H2. split; [|exact H2]. destruct ft; try discriminate H1. eauto.
+Qed.
+
+Section Build.
+  Variable n : nat.
+  Hypothesis IHn : forall t v, (ftsize t <= n)%nat -> nest t = true -> wt2 t v = true ->
+    good t v (xev2 t v) (nv2 t v).
+
+  Lemma build_funf : forall tab pp idx fs, tabfor tab pp idx fs ->
+    forall vs f, nest_fields fs = true -> wt2_fields fs vs = true -> (fsum fs <= n)%nat -> (fsum fs <= f)%nat ->
+    funf f tab pp idx fs vs.
+  Proof.
+    induction 1 as [pp idx|pp idx name tag ft r He _ IH|pp idx name tag ft r He Hs Hk _ IH
+                   |pp idx name tag ifs r He Hs _ IHin _ IH]; intros vs f Hn Hw Hb Hf.
+    - rewrite (wt2_fields_nil vs Hw). constructor.
+    - destruct vs as [|fv vr]; [discriminate Hw|].
+      cbn [nest_fields] in Hn. apply andb_true_iff in Hn. destruct Hn as [_ Hn3].
+      cbn [wt2_fields] in Hw. apply andb_true_iff in Hw. destruct Hw as [_ Hw]. rewrite fsum_cons in Hb, Hf.
+      apply fu_skip; [exact He|]. apply IH; [exact Hn3|exact Hw|lia|lia].
+    - destruct vs as [|fv vr]; [discriminate Hw|].
+      cbn [nest_fields] in Hn. apply andb_true_iff in Hn. destruct Hn as [Hn Hn3].
+      apply andb_true_iff in Hn. destruct Hn as [Hnf _].
+      cbn [wt2_fields] in Hw. apply andb_true_iff in Hw. destruct Hw as [Hwf Hw]. rewrite fsum_cons in Hb, Hf.
+      apply fu_plain; [exact He|exact Hs|exact Hk| |apply IH; [exact Hn3|exact Hw|lia|lia]].
+      intro rest. apply (g_unf _ _ _ _ (IHn ft fv ltac:(lia) Hnf Hwf)). lia.
+    - destruct vs as [|fv vr]; [discriminate Hw|].
+      cbn [nest_fields] in Hn. apply andb_true_iff in Hn. destruct Hn as [Hn Hn3].
+      apply andb_true_iff in Hn. destruct Hn as [Hnf Hok].
+      cbn [wt2_fields] in Hw. apply andb_true_iff in Hw. destruct Hw as [Hwf Hw].
+      rewrite fsum_cons, ftsize_struct in Hb, Hf.
+      destruct fv; try discriminate Hwf. rewrite wt2_struct in Hwf.
+      rewrite nest_struct in Hnf. apply andb_true_iff in Hnf. destruct Hnf as [Hnfi _].
+      assert (Hinl : inl_field name tag = true) by (unfold inl_field; rewrite He, Hs; reflexivity).
+      destruct (fld_ok_inl name tag _ Hinl Hok) as [_ Hoe].
+      apply fu_inl; [exact He|exact Hs|exact Hoe|apply IHin; [exact Hnfi|exact Hwf|lia|lia]
+                    |apply IH; [exact Hn3|exact Hw|lia|lia]].
+  Qed.
+
+  Lemma build_fg : forall m fs vs, (fsum fs <= m)%nat -> (m <= n)%nat ->
+    nest_fields fs = true -> wt2_fields fs vs = true -> fields_good fs vs.
+  Proof.
+    induction m as [|m IHm]; intros fs.
+    - intros vs Hb _ _ Hw. destruct fs as [|[[name tag] ft] fs]; [|rewrite fsum_cons in Hb; lia].
+      rewrite (wt2_fields_nil vs Hw). constructor.
+    - induction fs as [|[[name tag] ft] fs IHfs]; intros vs Hb Hmn Hn Hw.
+      + rewrite (wt2_fields_nil vs Hw). constructor.
+      + destruct vs as [|fv vr]; [discriminate Hw|].
+        cbn [nest_fields] in Hn. apply andb_true_iff in Hn. destruct Hn as [Hn Hn3].
+        apply andb_true_iff in Hn. destruct Hn as [Hnf Hok].
+        cbn [wt2_fields] in Hw. apply andb_true_iff in Hw. destruct Hw as [Hwf Hw]. rewrite fsum_cons in Hb.
+        assert (Htail : fields_good fs vr) by (apply IHfs; [lia|exact Hmn|exact Hn3|exact Hw]).
+        destruct (inl_field name tag) eqn:Hinl.
+        * destruct (fld_ok_inl name tag ft Hinl Hok) as [[ifs ->] Hoe].
+          destruct fv; try discriminate Hwf.
+          rewrite ftsize_struct in Hb.
+          apply fg_inl; [exact Hinl|exact Hoe| |apply IHn; [rewrite ftsize_struct; lia|exact Hnf|exact Hwf]|exact Htail].
+          rewrite nest_struct in Hnf. apply andb_true_iff in Hnf. destruct Hnf as [Hnfi _].
+          rewrite wt2_struct in Hwf. apply IHm; [lia|lia|exact Hnfi|exact Hwf].
+        * apply fg_cons; [exact Hinl|apply IHn; [lia|exact Hnf|exact Hwf]|exact Htail].
+  Qed.
+End Build.
+
+Theorem good_all : forall n t v, (ftsize t <= n)%nat -> nest t = true -> wt2 t v = true ->
+  good t v (xev2 t v) (nv2 t v).
+Proof.
+  induction n as [|n IH]; intros t v Hsz Hn Hw; [pose proof (ftsize_pos t); lia|].
+  destruct t; try discriminate Hn.
+  - exact (good_simple TBool v eq_refl Hw).
+  - exact (good_simple TString v eq_refl Hw).
+  - exact (good_simple (TNum k) v eq_refl Hw).
+  - (* pointer *)
+    cbn [nest] in Hn. cbn [ftsize] in Hsz. destruct v; try discriminate Hw.
+    + exact (good_ptr_nil t).
+    + cbn [wt2] in Hw. exact (good_ptr t v _ _ (IH t v ltac:(lia) Hn Hw)).
+  - (* slice *)
+    cbn [nest] in Hn. cbn [ftsize] in Hsz. destruct (is_prim t) eqn:Hp.
+    + assert (Hs : simple (TSlice t) = true) by (cbn [simple]; apply prim_simple; exact Hp).
+      rewrite xev2_simple, nv2_simple by exact Hs. rewrite wt2_simple in Hw by exact Hs. apply good_simple; assumption.
+    + assert (Hv : v = GNil \/ v = GList (glist v)) by (destruct v; try discriminate Hw; auto).
+      assert (Hel : forall x, In x (glist v) -> good t x (xev2 t x) (nv2 t x)).
+      { intros x Hx. apply IH; [lia|exact Hn|]. destruct v; try contradiction. cbn [wt2 glist] in *.
+        rewrite forallb_forall in Hw. auto. }
+      pose proof (good_slice t v (xev2 t) (nv2 t) Hp Hv Hel) as G.
+      cbn [xev2 nv2]. rewrite Hp. exact G.
+  - (* map *)
+    cbn [nest] in Hn. cbn [ftsize] in Hsz. destruct (is_prim t) eqn:Hp.
+    + assert (Hs : simple (TMap t) = true) by (cbn [simple]; apply prim_simple; exact Hp).
+      rewrite xev2_simple, nv2_simple by exact Hs. rewrite wt2_simple in Hw by exact Hs. apply good_simple; assumption.
+    + assert (Hv : v = GNil \/ v = GMap (gmap v)) by (destruct v; try discriminate Hw; auto).
+      assert (Hs : ssorted (map fst (gmap v)) = true).
+      { destruct v; try reflexivity. cbn [wt2 gmap] in *. apply andb_true_iff in Hw. tauto. }
+      assert (Hel : forall kv, In kv (gmap v) -> good t (snd kv) (xev2 t (snd kv)) (nv2 t (snd kv))).
+      { intros kv Hx. apply IH; [lia|exact Hn|]. destruct v; try contradiction. cbn [wt2 gmap] in *.
+        apply andb_true_iff in Hw. destruct Hw as [Hw _]. rewrite forallb_forall in Hw. auto. }
+      pose proof (good_map t v (xev2 t) (nv2 t) Hp (nest_not_iface t Hn) Hv Hs Hel) as G.
+      cbn [xev2 nv2]. rewrite Hp. exact G.
+  - (* struct *)
+    rewrite nest_struct in Hn. apply andb_true_iff in Hn. destruct Hn as [Hnf Hok].
+    destruct (ftab_ok_inv fs Hok) as [tab Et].
+    destruct v; try discriminate Hw. rewrite wt2_struct in Hw. rewrite ftsize_struct in Hsz.
+    rewrite xev2_struct, nv2_struct. apply (good_struct fs vs tab Hnf Et).
+    + apply (build_fg n IH (fsum fs) fs vs); [lia|lia|exact Hnf|exact Hw].
+    + intros f Hf. apply (build_funf n IH tab [] O fs); [|exact Hnf|exact Hw|lia|exact Hf].
+      apply (field_table_tabfor _ _ _ _ Et). intros k p ft Hk. exact Hk.
+  - exact (good_simple (TNamed t) v Hn Hw).
+Qed.
+Print Assumptions good_all.
+
+Lemma fold_value_nest T v : nest T = true ->
+  fold_value T v = ftop (4 * (tsize T + vsize v) + 8) T v.
+Proof. intro Hn. unfold fold_value. destruct v; try reflexivity. destruct T; try discriminate Hn; reflexivity. Qed.
+
+Lemma ftop_nest f T v evs : nest T = true -> simple T = false ->
+  ftop (S f) T v = (evs, None) -> rf f false T v = (evs, None).
+Proof.
+  intros Hn Hs H. rewrite ftop_S in H.
+  assert (HF : Fast f v T = None).
+  { unfold Fast. destruct T; try discriminate Hn; try discriminate Hs; cbn [prim_fold]; try reflexivity.
+    - cbn [nest simple] in *. destruct (is_prim T) eqn:Hp; [rewrite (prim_simple T Hp) in Hs; discriminate Hs|].
+      destruct T; try discriminate Hn; reflexivity.
+    - cbn [nest simple] in *. destruct (is_prim T) eqn:Hp; [rewrite (prim_simple T Hp) in Hs; discriminate Hs|].
+      destruct T; try discriminate Hn; reflexivity. }
+  rewrite HF in H.
+  destruct T; try discriminate Hn; try discriminate Hs; try (apply Anyr_rf_ok; exact H).
+  cbn [nest] in Hn. rewrite Hn in Hs. discriminate Hs.
+Qed.
+
+(* C11 (direct route) for nested structs: structs in structs, behind pointers, in slices and
+   in string-keyed maps, to any depth; inlined (squash) structs, to any depth; names, "-",
+   omit, omitempty and unexported fields.
+   Not covered: inlined pointers / maps / interfaces (Unfold refuses them), interface{}-typed
+   fields and elements, arrays, defined (named) struct / pointer types. *)
+Theorem C11_direct_nested_partial : forall T v evs,
+  nest T = true -> wt2 T v = true -> fold_value T v = (evs, None) ->
+  exists v', unfold_value T (zero_of T) evs = UDone v' /\
+             forall F, (ftsize T < F)%nat -> deep_eq F T (omit_view F T v) v' = true.
+Proof.
+  intros T v evs Hn Hw H. destruct (simple T) eqn:Hs.
+  - apply C11_direct_partial'; [exact Hs|rewrite <- wt2_simple by exact Hs; exact Hw|exact H].
+  - pose proof (good_all (ftsize T) T v (le_n _) Hn Hw) as [Gf Gu _ _ Gd _].
+    exists (nv2 T v). split; [|exact Gd].
+    rewrite fold_value_nest in H by exact Hn.
+    replace (4 * (tsize T + vsize v) + 8)%nat with (S (4 * (tsize T + vsize v) + 7)) in H by lia.
+    apply (ftop_nest _ T v evs Hn Hs) in H.
+    assert (Hx : flat_map expand evs = xev2 T v) by (apply (Gf _ evs) in H; [exact H|unfold msz; lia]).
+    unfold unfold_value, ucc_type. rewrite (ucc_nest _ T Hn) by lia. rewrite Hx.
+    rewrite <- (app_nil_r (xev2 T v)) at 2. rewrite Gu by lia. reflexivity.
+Qed.
+Print Assumptions C11_direct_nested_partial.
+
+(* what comes back is [nv2 T v] *)
+Corollary C11_direct_nested_value : forall T v evs,
+  nest T = true -> wt2 T v = true -> fold_value T v = (evs, None) ->
+  unfold_value T (zero_of T) evs = UDone (nv2 T v).
+Proof.
+  intros T v evs Hn Hw H. destruct (simple T) eqn:Hs.
+  - rewrite nv2_simple by exact Hs. rewrite wt2_simple in Hw by exact Hs.
+    rewrite fold_value_ftop in H by exact Hs. pose proof (ftop_xev _ _ _ _ Hs Hw H) as Hx.
+    unfold unfold_value, ucc_type. rewrite (ucc_simple _ T Hs) by lia. rewrite Hx.
+    rewrite <- (app_nil_r (xev true T v)) at 2. rewrite (unfold_all _ T v true [] Hs Hw); [reflexivity|lia].
+  - pose proof (good_all (ftsize T) T v (le_n _) Hn Hw) as [Gf Gu _ _ _ _].
+    rewrite fold_value_nest in H by exact Hn.
+    replace (4 * (tsize T + vsize v) + 8)%nat with (S (4 * (tsize T + vsize v) + 7)) in H by lia.
+    apply (ftop_nest _ T v evs Hn Hs) in H.
+    assert (Hx : flat_map expand evs = xev2 T v) by (apply (Gf _ evs) in H; [exact H|unfold msz; lia]).
+    unfold unfold_value, ucc_type. rewrite (ucc_nest _ T Hn) by lia. rewrite Hx.
+    rewrite <- (app_nil_r (xev2 T v)) at 2. rewrite Gu by lia. reflexivity.
+Qed.
+
+(* an instance: a struct with a struct field, an omitempty pointer to a struct, a slice of
+   structs, an omitempty map of pointers to structs, an omitempty struct, a pointer to a
+   pointer to a struct, a slice of pointers and a map of structs; the inner struct has an
+   omitempty *string and an unexported field *)
+Definition c11_inner : gtype :=
+  TStruct [([88], [], TNum KInt); ([89], [44] ++ s_omitempty, TPtr TString); ([122], [], TBool)].
+Definition c11_outer : gtype :=
+  TStruct [([65], [], c11_inner);
+           ([66], [44] ++ s_omitempty, TPtr c11_inner);
+           ([67], [], TSlice c11_inner);
+           ([68], [44] ++ s_omitempty, TMap (TPtr c11_inner));
+           ([69], [44] ++ s_omitempty, c11_inner);
+           ([70], [], TPtr (TPtr c11_inner));
+           ([71], [], TSlice (TPtr (TNum KInt)));
+           ([72], [], TMap c11_inner)].
+Definition c11_iv (a : Z) (s : gvalue) : gvalue := GStruct [GNum a; s; GBool true].
+Definition c11_v : gvalue :=
+  GStruct [c11_iv 1 GNil; GPtr (c11_iv 2 (GPtr (GStr [120]))); GList [c11_iv 3 GNil; c11_iv 4 (GPtr (GStr []))];
+           GMap [([97], GNil); ([98], GPtr (c11_iv 5 GNil))]; c11_iv 6 GNil; GPtr GNil; GList [GNil; GPtr (GNum 3)];
+           GMap [([113], c11_iv 7 GNil)]].
+
+Example C11_nested_example :
+  nest c11_outer = true /\ wt2 c11_outer c11_v = true /\ snd (fold_value c11_outer c11_v) = None /\
+  unfold_value c11_outer (zero_of c11_outer) (fst (fold_value c11_outer c11_v)) =
+    UDone (GStruct
+             [GStruct [GNum 1; GNil; GBool false];
+              GPtr (GStruct [GNum 2; GPtr (GStr [120]); GBool false]);
+              GList [GStruct [GNum 3; GNil; GBool false]; GStruct [GNum 4; GNil; GBool false]];
+              GMap [([97], GNil); ([98], GPtr (GStruct [GNum 5; GNil; GBool false]))];
+              GStruct [GNum 6; GNil; GBool false]; GNil;
+              GList [GNil; GPtr (GNum 3)];
+              GMap [([113], GStruct [GNum 7; GNil; GBool false])]]).
+Proof. vm_compute. repeat split; reflexivity. Qed.
+
+Lemma fold_value_split T v : snd (fold_value T v) = None -> fold_value T v = (fst (fold_value T v), None).
+Proof. destruct (fold_value T v) as [evs e]. cbn [fst snd]. intros ->. reflexivity. Qed.
+
+Example C11_nested_example_thm :
+  exists v', unfold_value c11_outer (zero_of c11_outer) (fst (fold_value c11_outer c11_v)) = UDone v' /\
+             forall F, (ftsize c11_outer < F)%nat -> deep_eq F c11_outer (omit_view F c11_outer c11_v) v' = true.
+Proof.
+  apply (C11_direct_nested_partial c11_outer c11_v); [vm_compute; reflexivity|vm_compute; reflexivity|].
+  apply fold_value_split. vm_compute. reflexivity.
+Qed.
+
+(* inlined structs, one in the other, next to the same struct type as an ordinary field and
+   in a slice *)
+Definition c11_in2 : gtype := TStruct [([80], [], TNum KInt); ([81], [44] ++ s_omitempty, TString)].
+Definition c11_in1 : gtype :=
+  TStruct [([88], [], TNum KInt); ([73], [44] ++ s_inline, c11_in2); ([89], [], TPtr c11_in2)].
+Definition c11_inl : gtype :=
+  TStruct [([65], [], TString); ([66], [44] ++ s_squash, c11_in1); ([67], [], c11_in1); ([68], [], TSlice c11_in1)].
+Definition c11_v2 (a : Z) (s : bytes) := GStruct [GNum a; GStr s].
+Definition c11_v1 (a : Z) := GStruct [GNum a; c11_v2 (a + 1) [115]; GPtr (c11_v2 (a + 2) [])].
+Definition c11_inl_v := GStruct [GStr [97]; c11_v1 10; c11_v1 20; GList [c11_v1 30]].
+
+Example C11_inline_example :
+  nest c11_inl = true /\ wt2 c11_inl c11_inl_v = true /\
+  fst (fold_value c11_inl c11_inl_v) =
+    [EObjStart (-1) BAny; EKey [97]; EVal (SStr [97]);
+     EKey [120]; EVal (SNum KInt64 10); EKey [112]; EVal (SNum KInt64 11); EKey [113]; EVal (SStr [115]);
+     EKey [121]; EObjStart (-1) BAny; EKey [112]; EVal (SNum KInt64 12); EObjEnd;
+     EKey [99]; EObjStart (-1) BAny; EKey [120]; EVal (SNum KInt64 20); EKey [112]; EVal (SNum KInt64 21);
+       EKey [113]; EVal (SStr [115]); EKey [121]; EObjStart (-1) BAny; EKey [112]; EVal (SNum KInt64 22); EObjEnd; EObjEnd;
+     EKey [100]; EArrStart 1 BAny; EObjStart (-1) BAny; EKey [120]; EVal (SNum KInt64 30); EKey [112];
+       EVal (SNum KInt64 31); EKey [113]; EVal (SStr [115]); EKey [121]; EObjStart (-1) BAny; EKey [112];
+       EVal (SNum KInt64 32); EObjEnd; EObjEnd; EArrEnd; EObjEnd] /\
+  unfold_value c11_inl (zero_of c11_inl) (fst (fold_value c11_inl c11_inl_v)) = UDone c11_inl_v.
+Proof. vm_compute. repeat split; reflexivity. Qed.
+
+Example C11_inline_example_thm :
+  exists v', unfold_value c11_inl (zero_of c11_inl) (fst (fold_value c11_inl c11_inl_v)) = UDone v' /\
+             forall F, (ftsize c11_inl < F)%nat -> deep_eq F c11_inl (omit_view F c11_inl c11_inl_v) v' = true.
+Proof.
+  apply (C11_direct_nested_partial c11_inl c11_inl_v); [vm_compute; reflexivity|vm_compute; reflexivity|].
+  apply fold_value_split. vm_compute. reflexivity.
 Qed.
